@@ -560,6 +560,7 @@ func init() {
 
 		c05Profiles(e)
 		c05Rollback(e)
+		c05Selector(e)
 	}
 }
 
@@ -799,4 +800,130 @@ func c05Rollback(e *ext) {
 	}
 	fmt.Fprintf(&e.out, "def unschedulableDef : String := %s\n", leanStr(unsch))
 	fmt.Fprintf(&e.out, "def terminatingDef : String := %s\n", leanStr(termDef))
+}
+
+// full expression text with parameters named #i (calls keep their arguments; other locals are blanked)
+func c05Full(x ast.Expr, params map[string]int) string {
+	switch v := x.(type) {
+	case *ast.ParenExpr:
+		return c05Full(v.X, params)
+	case *ast.BinaryExpr:
+		return "(" + c05Full(v.X, params) + " " + v.Op.String() + " " + c05Full(v.Y, params) + ")"
+	case *ast.UnaryExpr:
+		return v.Op.String() + c05Full(v.X, params)
+	case *ast.SelectorExpr:
+		return c05Full(v.X, params) + "." + v.Sel.Name
+	case *ast.CallExpr:
+		args := make([]string, len(v.Args))
+		for i, a := range v.Args {
+			args[i] = c05Full(a, params)
+		}
+		name := "?"
+		switch f := v.Fun.(type) {
+		case *ast.Ident:
+			name = f.Name
+		case *ast.SelectorExpr:
+			name = f.Sel.Name
+		}
+		return name + "(" + strings.Join(args, ",") + ")"
+	case *ast.BasicLit:
+		return v.Value
+	case *ast.Ident:
+		if v.Name == "nil" || v.Name == "true" || v.Name == "false" {
+			return v.Name
+		}
+		if i, ok := params[v.Name]; ok {
+			return fmt.Sprintf("#%d", i)
+		}
+		return "_"
+	}
+	return "?"
+}
+
+// owner label selectors (round 6): util.GetFastLabelSelector's guard in front of the labels-only fast path, what the
+// fast path builds, the fall-through; which helper ParseReservationOwnerMatchers parses an owner's selector with and
+// that a parse error drops the whole spec; MatchOwners' ParseError gate.
+func c05Selector(e *ext) {
+	var fast []string
+	if fd := e.funcDecl("pkg/util", "", "GetFastLabelSelector"); fd != nil && fd.Body != nil {
+		params := c05Params(fd)
+		for _, st := range fd.Body.List {
+			switch v := st.(type) {
+			case *ast.IfStmt:
+				fast = append(fast, "if:"+c05Full(v.Cond, params))
+				ast.Inspect(v.Body, func(n ast.Node) bool {
+					if c, ok := n.(*ast.CallExpr); ok {
+						fast = append(fast, "then:"+c05Full(c, params))
+						return false
+					}
+					return true
+				})
+				if v.Else != nil {
+					fast = append(fast, "else")
+				}
+			case *ast.ReturnStmt:
+				for _, r := range v.Results {
+					fast = append(fast, "return:"+c05Full(r, params))
+				}
+			case *ast.DeclStmt:
+			default:
+				fast = append(fast, "other")
+			}
+		}
+	} else {
+		e.fail("util.GetFastLabelSelector not found")
+	}
+	c05List(&e.out, "fastSelector", fast)
+
+	var parse []string
+	if fd := e.funcDecl("pkg/util/reservation", "", "ParseReservationOwnerMatchers"); fd != nil && fd.Body != nil {
+		ast.Inspect(fd.Body, func(n ast.Node) bool {
+			switch v := n.(type) {
+			case *ast.AssignStmt:
+				if len(v.Rhs) == 1 {
+					if c, ok := v.Rhs[0].(*ast.CallExpr); ok {
+						if f, ok := c.Fun.(*ast.SelectorExpr); ok && len(c.Args) == 1 {
+							if a, ok := c.Args[0].(*ast.SelectorExpr); ok && a.Sel.Name == "LabelSelector" {
+								parse = append(parse, "selector="+f.Sel.Name+"(.LabelSelector)")
+							}
+						}
+					}
+				}
+			case *ast.IfStmt:
+				sh := c05Shape(v.Cond)
+				if sh == "(len() > 0)" {
+					ret := ""
+					if len(v.Body.List) > 0 {
+						if rs, ok := v.Body.List[len(v.Body.List)-1].(*ast.ReturnStmt); ok && len(rs.Results) == 2 {
+							ret = c05Shape(rs.Results[0])
+						}
+					}
+					parse = append(parse, "errs:"+sh+" => return "+ret)
+				}
+			}
+			return true
+		})
+	} else {
+		e.fail("reservationutil.ParseReservationOwnerMatchers not found")
+	}
+	c05List(&e.out, "ownerSelectorParse", parse)
+
+	gate := ""
+	if fd := e.funcDecl("pkg/scheduler/frameworkext", "ReservationInfo", "MatchOwners"); fd != nil && fd.Body != nil {
+		for _, st := range fd.Body.List {
+			if is, ok := st.(*ast.IfStmt); ok {
+				ret := ""
+				if len(is.Body.List) > 0 {
+					if rs, ok := is.Body.List[len(is.Body.List)-1].(*ast.ReturnStmt); ok && len(rs.Results) == 1 {
+						ret = c05Shape(rs.Results[0])
+					}
+				}
+				gate = c05Shape(is.Cond) + " => return " + ret
+				break
+			}
+		}
+	} else {
+		e.fail("ReservationInfo.MatchOwners not found")
+	}
+	fmt.Fprintf(&e.out, "def matchOwnersGate : String := %s\n", leanStr(gate))
 }
